@@ -767,7 +767,6 @@ struct SigObj
   int lvl = 0; // forwarding level (recursion guard of the op language)
   void* up = nullptr; // trackable flavours: a private upstream signal holding this->make_slot() (see attach_up)
   bool dying = false; // the signal object is being destroyed (destroy_signal_object)
-  bool assigning = false; // destination of an assignment in progress: its shared_ptr is half-assigned, nobody may use it
   bool owned = false; // a functor family owns the object (ownG); the name is only an alias
   int name = -1;
   std::weak_ptr<OwnedSig> owner;
@@ -820,6 +819,8 @@ void query_all_signals(); // (defined after Interp)
 void check_dying_lists();  // (defined after Interp)
 // slot lists whose last handle is being destroyed or reassigned right now (identity of the signal_impl)
 static thread_local std::vector<const void*> g_lists_dying;
+// signal objects taking part in an assignment in progress (the destination's shared_ptr is half-assigned: nobody may use it)
+static thread_local std::vector<const void*> g_assigning;
 // the slot list of a signal object if this object is its only owner (no other handle, no emission in progress)
 inline const void* sole_list(SigObj* g)
 {
@@ -1698,12 +1699,20 @@ struct Interp
             g_lists_dying.pop_back();
         }
       } pop_dying{lp != nullptr};
+      // (the objects themselves may die in this assignment — a handle owned by a functor of the old list — so the mark
+      //  is kept outside of them)
       struct Assigning
       {
-        SigObj* a;
-        SigObj* b;
-        Assigning(SigObj* x, SigObj* y) : a(x), b(y) { a->assigning = b->assigning = true; }
-        ~Assigning() { a->assigning = b->assigning = false; }
+        Assigning(const void* x, const void* y)
+        {
+          g_assigning.push_back(x);
+          g_assigning.push_back(y);
+        }
+        ~Assigning()
+        {
+          g_assigning.pop_back();
+          g_assigning.pop_back();
+        }
       } assigning(dst, src);
       with_sig(*dst, [cp, src](auto& d) {
         using Ty = std::remove_reference_t<decltype(d)>;
@@ -2566,7 +2575,10 @@ void query_all_signals()
     SigObj* g = kv.second;
     if (!g || g->dying)
       continue;
-    const bool assigning = g->assigning;
+    bool assigning = false;
+    for (const void* a : g_assigning)
+      if (a == g)
+        assigning = true;
     with_sig(*g, [assigning](auto& s) {
       volatile std::size_t n = s.size();
       volatile bool e = s.empty();
